@@ -149,11 +149,14 @@ def finish(pid: str, tier: str, obs: list[Ob], meta: dict, t0: float, errors: li
     with open(os.path.join(evdir, f"{pid}.json"), "w") as f:
         json.dump(ev, f, indent=1, default=str)
 
-    print(f"[ttsa] property={pid} tier={tier} obligations={len(decided)} discharged={len(discharged)} "
-          f"violations={len(new_viol)} known={len(known_hits)} errors={len(errs) + len(errors)} "
-          f"info={sum(1 for o in obs if o.status == INFO)} wall={wall:.2f}s")
-    for r in sorted(counts):
-        print(f"  rule {r}: {counts[r]} instance(s)")
-    for ln in lines:
-        print(ln)
+    try:
+        print(f"[ttsa] property={pid} tier={tier} obligations={len(decided)} discharged={len(discharged)} "
+              f"violations={len(new_viol)} known={len(known_hits)} errors={len(errs) + len(errors)} "
+              f"info={sum(1 for o in obs if o.status == INFO)} wall={wall:.2f}s")
+        for r in sorted(counts):
+            print(f"  rule {r}: {counts[r]} instance(s)")
+        for ln in lines:
+            print(ln)
+    except BrokenPipeError:
+        pass
     return code
